@@ -82,8 +82,7 @@ func c37Contents() []*c37Content {
 type c37Worker struct {
 	conv       tagsToSections
 	sb         *ShardBuilder
-	content    *postingsBuilder
-	name       *postingsBuilder
+	wb         *wbPool
 	adds       int
 	keyBuf     []byte
 	nontrivial int64
@@ -207,13 +206,11 @@ func (w *c37Worker) check(c *c37Content, tags []*ctags.Entry) (what, detail stri
 	// acceptance by the real shard builder (Category and Language are pre-computed, as Builder.Add does)
 	if w.sb == nil || w.adds >= 8192 {
 		// same buffer reuse as Builder.getPostingsBuilder: reset the pooled postings builders
-		if w.content == nil {
-			w.content, w.name = newPostingsBuilder(1<<20), newPostingsBuilder(1<<20)
+		if w.wb == nil {
+			w.wb = wbNewPool()
 		}
-		w.content.reset()
-		w.name.reset()
-		w.sb = newShardBuilderWithPostings(w.content, w.name)
-		if err := w.sb.setRepository(&zoekt.Repository{Name: "c37"}); err != nil {
+		var err error
+		if w.sb, err = w.wb.newBuilder(&zoekt.Repository{Name: "c37"}); err != nil {
 			return "TOOL: setRepository", err.Error()
 		}
 		w.adds = 0
@@ -334,7 +331,7 @@ func TestVerifC37(t *testing.T) {
 	if !r.Replaying() {
 		for i := 0; i < cap(pool); i++ {
 			// allocated one after the other: touching 16 MB tables from all CPUs at once is very slow
-			pool <- &c37Worker{outputs: map[string]struct{}{}, content: newPostingsBuilder(1 << 20), name: newPostingsBuilder(1 << 20)}
+			pool <- &c37Worker{outputs: map[string]struct{}{}, wb: wbNewPool()}
 		}
 	}
 
